@@ -79,6 +79,34 @@ Definition intersect_parametric (f : R -> R) (tol : R) (limit : nat) : sres * na
 (* the unrepaired loop tested `abs(error[1]) > target_error` before the first evaluation as well: with
    target_error >= 100 the body never ran and the epilogue used the unassigned `point` (UnboundLocalError) *)
 Definition unrepaired_raises (tol : R) : bool := negb (Rltb tol (Rabs 100)).
+(* a BATCH of rays: rows (f, d0, d1, e0, e1) step together while ANY row is above the tolerance (max of the absolute
+   errors); a zero denominator in any row (NaN in floats) or the counter flags the WHOLE batch (False, False) *)
+Definition SRow := ((R -> R) * R * R * R * R)%type.
+Definition srow_f (r : SRow) : R -> R := let '(f, _, _, _, _) := r in f.
+Definition srow_d0 (r : SRow) : R := let '(_, d0, _, _, _) := r in d0.
+Definition srow_d1 (r : SRow) : R := let '(_, _, d1, _, _) := r in d1.
+Definition srow_e1 (r : SRow) : R := let '(_, _, _, _, e1) := r in e1.
+Definition srow_step (r : SRow) : SRow :=
+  let '(f, d0, d1, e0, e1) := r in let e1' := f d1 in (f, d1, secant_next d0 d1 e0 e1', e1', e1').
+Definition srow_above (tol : R) (r : SRow) : bool := Rltb tol (Rabs (srow_e1 r)).
+Definition srow_nan (r : SRow) : bool := let '(f, d0, d1, e0, e1) := r in Reqb (f d1 - e0) 0.
+Definition srow_init (f : R -> R) : SRow := (f, 0, 1 / 10, 150, 100).
+Inductive bres := BHit (ds : list R) | BFlagged | BOutOfFuel.
+Fixpoint secant_batch (fuel : nat) (tol : R) (limit iter : nat) (rows : list SRow) : bres * nat :=
+  match fuel with
+  | O => (BOutOfFuel, iter)
+  | S k => if orb (Nat.eqb iter 0) (existsb (srow_above tol) rows) then
+             if existsb srow_nan rows then (BFlagged, S iter)
+             else if Nat.ltb limit (S iter) then (BFlagged, S iter)
+             else secant_batch k tol limit (S iter) (map srow_step rows)
+           else (BHit (map srow_d1 rows), iter)
+  end.
+Definition intersect_parametric_batch (fs : list (R -> R)) (tol : R) (limit : nat) : bres * nat :=
+  secant_batch (S (S limit)) tol limit 0 (map srow_init fs).
+(* the unrepaired condition for two rows: the absolute value of the maximum, not the maximum of the absolute values *)
+Definition guard2_unrepaired (tol e0 e1 : R) : bool := Rltb tol (Rabs (Rmax e0 e1)).
+Definition guard2 (tol e0 e1 : R) : bool := orb (Rltb tol (Rabs e0)) (Rltb tol (Rabs e1)).
+
 (* the sphere and cylinder functions along a ray o + x d *)
 Definition sphere_along (o d c : V3) (r x : R) : R := vnorm2 (vsub (vadd o (vscale x d)) c) - r * r.
 
